@@ -344,3 +344,12 @@ def run(ctx):
 
     from .c05 import transport_rules as _tr6
     _tr6(ctx, 'C06.5-transport-discipline')
+
+    # "never panics the task": the fragment-frame decoders of erltf run on peer bytes before anything else looks at them
+    ctx.rule('C06.1-fragment-decoders-total', 'decode_fragment_header / decode_fragment_cont (and helpers inlined into them) have no undischarged panic-capable site: a truncated fragment frame is an error, not a panic', floor=1)
+    n_fd = 0
+    for fn_ in ('erltf::decoder::decode_fragment_header', 'erltf::decoder::decode_fragment_cont'):
+        for FB_ in bodies_of_fn(P, fn_):
+            n_fd += check_panics(ctx, FB_, 'C06.1-fragment-decoders-total')
+            ctx.ok('C06.1-fragment-decoders-total', FB_.path, 'every panic-capable site of the body is discharged (%d blocks examined)' % len(FB_.blocks))
+    ctx.anchor(P.B('erltf::decoder::decode_fragment_header') is not None, 'erltf::decoder::decode_fragment_header')
